@@ -124,16 +124,109 @@ def cache_key_covers_value(f, node):
                         cur = par
         return out
 
+    # a parameter pinned to a literal by an enclosing `param == literal` guard (true branch) is a constant at the write
+    pinned = set()
     vd = deps(node.value, set())
     cur = node
     while cur is not None and cur is not f.node:
         par = getattr(cur, "_parent", None)
         if isinstance(par, (ast.If, ast.While)):
-            vd |= deps(par.test, set())
+            t = par.test
+            if (isinstance(par, ast.If) and cur in par.body and isinstance(t, ast.Compare) and len(t.ops) == 1 and isinstance(t.ops[0], (ast.Eq, ast.Is))
+                    and isinstance(t.left, ast.Name) and t.left.id in roots and isinstance(t.comparators[0], ast.Constant)):
+                pinned.add(t.left.id)
+            else:
+                vd |= deps(par.test, set())
         cur = par
-    kd = deps(node.targets[0].slice, set())
+    reassigned = {x.id for x in ast.walk(f.node) if isinstance(x, ast.Name) and isinstance(x.ctx, ast.Store)}
+    vd -= (pinned - reassigned)
+
+    # the key covers an access path only where the path enters the key injectively (as itself, in a tuple, through tuple()/str()/repr()):
+    # `len(x)`, `hash(x)` or arithmetic on x identify a class of arguments, not the argument
+    def inj(expr, seen):
+        if isinstance(expr, (ast.Tuple, ast.List)):
+            out = set()
+            for e in expr.elts:
+                out |= inj(e, seen)
+            return out
+        if isinstance(expr, ast.Call) and isinstance(expr.func, ast.Name) and expr.func.id in ("tuple", "str", "repr", "bytes", "frozenset") and len(expr.args) == 1 and not expr.keywords:
+            return inj(expr.args[0], seen)
+        if isinstance(expr, ast.Name) and expr.id not in roots and expr.id in defs and expr.id not in seen and len(defs[expr.id]) == 1 \
+                and len(defs[expr.id][0].targets) == 1 and isinstance(defs[expr.id][0].targets[0], ast.Name):
+            return inj(defs[expr.id][0].value, seen | {expr.id})
+        if isinstance(expr, (ast.Name, ast.Attribute)):
+            b = expr
+            while isinstance(b, ast.Attribute):
+                b = b.value
+            if isinstance(b, ast.Name) and b.id in roots:
+                return {norm(expr)}
+        return set()
+
+    kd = inj(node.targets[0].slice, set())
     # bare roots (whole objects) in the value are covered only by the same bare root in the key
     return vd <= kd, vd, kd
+
+
+def _mutable_result(model, f, call, depth=0):
+    """Does the value produced by `call` (resolved in f) contain numpy arrays / lists / dicts built by the callee?"""
+    g = model.resolve_call(call, f)
+    if g is None or depth > 2:
+        return None  # unknown
+    env = {}
+    for s in ast.walk(g.node):
+        if isinstance(s, ast.Assign) and len(s.targets) == 1 and isinstance(s.targets[0], ast.Name):
+            env.setdefault(s.targets[0].id, []).append(s.value)
+
+    def mut(e, seen):
+        if isinstance(e, (ast.List, ast.Dict, ast.Set, ast.ListComp, ast.DictComp, ast.SetComp)):
+            return True
+        if isinstance(e, ast.Tuple):
+            return any(mut(x, seen) for x in e.elts)
+        if isinstance(e, ast.Call):
+            d = norm(e.func)
+            if d.startswith(("np.", "numpy.", "sps.", "scipy.")) and d.split(".")[-1] not in ("sum", "prod", "max", "min", "dot", "float32", "float64", "int32", "int64", "sqrt", "floor", "ceil"):
+                return True
+            r = _mutable_result(model, g, e, depth + 1)
+            return bool(r)
+        if isinstance(e, ast.BinOp):
+            return mut(e.left, seen) or mut(e.right, seen)
+        if isinstance(e, ast.Name) and e.id in env and e.id not in seen:
+            return any(mut(v, seen | {e.id}) for v in env[e.id])
+        return False
+    return any(mut(r.value, set()) for r in ast.walk(g.node) if isinstance(r, ast.Return) and r.value is not None)
+
+
+def memo_value_mutations(model, f, container):
+    """In-place modifications, inside f, of objects read out of (or stored into) the memo `container`:
+    [(node, text)].  A memo hands the same object to every later call; modifying it in place changes what they get."""
+    tainted = {}
+    for s in ast.walk(f.node):
+        if isinstance(s, ast.Assign) and isinstance(s.value, ast.Subscript) and norm(s.value.value) == container:
+            for t in s.targets:
+                for x in ast.walk(t):
+                    if isinstance(x, ast.Name) and isinstance(x.ctx, ast.Store):
+                        tainted[x.id] = s
+        if isinstance(s, ast.Assign) and isinstance(s.targets[0], ast.Subscript) and norm(s.targets[0].value) == container and isinstance(s.value, ast.Name):
+            tainted[s.value.id] = s
+    out = []
+    for s in ast.walk(f.node):
+        if isinstance(s, ast.AugAssign):
+            b = s.target
+            while isinstance(b, (ast.Subscript, ast.Attribute)):
+                b = b.value
+            if isinstance(b, ast.Name) and b.id in tainted:
+                out.append((s, norm(s)))
+        elif isinstance(s, ast.Assign):
+            for t in s.targets:
+                if isinstance(t, (ast.Subscript, ast.Attribute)):
+                    b = t
+                    while isinstance(b, (ast.Subscript, ast.Attribute)):
+                        b = b.value
+                    if isinstance(b, ast.Name) and b.id in tainted:
+                        out.append((s, norm(s)))
+        elif isinstance(s, ast.Call) and isinstance(s.func, ast.Attribute) and s.func.attr in MUTATORS and isinstance(s.func.value, ast.Name) and s.func.value.id in tainted:
+            out.append((s, norm(s)))
+    return out
 
 
 def rule_shared_state(ctx, R, modules, what):
@@ -150,6 +243,14 @@ def rule_shared_state(ctx, R, modules, what):
     for f, node, desc in ws:
         covered, vd, kd = cache_key_covers_value(f, node)
         if covered:
+            cont = norm(node.targets[0].value)
+            muts = memo_value_mutations(ctx.model, f, cont)
+            producer = node.value if isinstance(node.value, ast.Call) else None
+            is_mut = _mutable_result(ctx.model, f, producer) if producer is not None else None
+            if muts and is_mut is not False:
+                ctx.ob(R, f.qname, f"objects held in the memo {cont} are not modified in place", False,
+                       f"{desc}; the memoised object is handed to every later call, and `{muts[0][1][:60]}` modifies it in place: the second request gets a different value; {what}", muts[0][0])
+                continue
             ctx.note(f"{R}: {f.short}: {desc} -- keyed on everything the stored value is computed from ({sorted(kd)}), accepted as a memo")
             continue
         missing = sorted(vd - kd)
